@@ -251,9 +251,9 @@ func GenArgs(r *rand.Rand, op Op, serial uint32) Args {
 		a.Card = c
 		switch r.Intn(5) {
 		case 0:
-			a.Formats = []uint8{0}
+			a.Formats = []int{0}
 		case 1: // Wiegand-26 with a matching number
-			a.Formats = []uint8{1}
+			a.Formats = []int{1}
 			c.Number = uint32(r.Intn(256))*100000 + uint32(r.Intn(65536))
 			if r.Intn(3) == 0 {
 				c.Number = pick(r, uint32(25565535), 25500000, 65535, 100000, 1, 25565534, 10058400)
@@ -262,7 +262,7 @@ func GenArgs(r *rand.Rand, op Op, serial uint32) Args {
 				c.Number = 1
 			}
 		case 2:
-			a.Formats = []uint8{1, 0}
+			a.Formats = []int{1, 0}
 		}
 	case GetTimeProfile:
 		a.U8 = GenU8(r)
